@@ -56,7 +56,7 @@ P('C01', claimed=True, needs_driver=True, level='other',
   unreached=['acceptance by a real scsynth'])
 
 P('C02', claimed=True, needs_driver=True, level='other',
-  contracts=['synth_fmtrw', 'synth_writer', 'synth_synthdef_graph', 'synth_toposort'], drivers=['vf.drivers.C02'],
+  contracts=['synth_fmtrw', 'synth_writer', 'synth_synthdef_graph', 'synth_toposort', 'synth_outputs'], drivers=['vf.drivers.C02'],
   level_text=('Discharged (pyvc, all inputs): byte lengths and value ranges of the primitive writers; the field '
               'sequence a unit writes (SynthObject._write_def: name, rate number, input count, output count, '
               'special index as i16, then exactly one input spec per input in order, then the output specs - '
@@ -74,7 +74,9 @@ P('C02', claimed=True, needs_driver=True, level='other',
               'width-first antecedent; _make_available iff no antecedent left; _remove_antecedent; _arrange: every '
               'descendant released once, THEN self appended) and its driver loop (one pop and one arrange per '
               'pass onto the one output list, which becomes the table), with the ordering lemma (Kahn) over '
-              'these contracts. Bounded: well-formedness of '
+              'these contracts; rejection of rate mismatches at output units (AbstractOut._check_inputs names the '
+              'FIRST non-audio signal input of an audio-rate unit, reports a missing input, else defers to the '
+              'generic check). Bounded: well-formedness of '
               'whole definitions (complete parse as one SCgf-2 definition, wires refer to earlier units/'
               'existing constants, width-first ordering, consistent counts, acceptance by the library reader '
               'incl. every output unit the source creates, rejection of invalid graphs) with an independent '
@@ -85,13 +87,15 @@ P('C02', claimed=True, needs_driver=True, level='other',
               'independent SCgf-2 reader.'),
   unreached=['acceptance by a real scsynth'])
 
-P('C03', claimed=True, level='other', contracts=['base_utils', 'synth_ugen', 'synth_multinew'], drivers=['vf.drivers.C03'],
+P('C03', claimed=True, level='other', contracts=['base_utils', 'synth_ugen', 'synth_multinew', 'synth_outputs'], drivers=['vf.drivers.C03'],
   level_text=('The generic expansion itself, SynthObject._multi_new, is under contract for calls with 1-4 arguments of '
               'arbitrary values and list lengths: without a (non-empty) list exactly one unit via _new1; otherwise '
               'exactly one recursive call per channel i of the longest list with every list argument replaced by '
               'its element i mod its length (loop invariant over the ghost trace), the rate name of each channel '
               'checked, the result stored at position i and handed to ChannelList; an empty list next to a longer '
-              'one is refused (ZeroDivisionError) iff present. '
+              'one is refused (ZeroDivisionError) iff present. Output units: _replace_zeroes_with_silence replaces, '
+              'in place and position by position, every zero number by the ONE silence unit made at the start, every '
+              'nested list by its own replacement, and nothing else (array-store model, quantified invariant). '
               'The wrap-around law of the list helper every expansion rests on (utils.wrap_extend: length n, '
               'element i is lst[i mod len]; utils.extend) is proved for all lists and positions. '
               'The wrap-and-zip law is checked as a run-time contract on the real constructors: every '
